@@ -187,6 +187,10 @@ theorem shared_writes_reviewed :
     (unguardedGlobalWrites.filter fun (_, _, _, reach) => reach) = [] := by
   decide
 
+/-- the statement order the model's initial state assumes (the caller reads `newProject.Services` before the collector
+    goroutine exists, two `eg.Go` sites) is the order of the source now -/
+theorem fanout_model_order_is_the_sources : fanoutFieldReadPrecedesSpawn = true := by decide
+
 /-- the only store into caller-owned data through a parameter of the loader / cli packages is the known one
     (`loader.projectName`, finding `race-write@loader.projectName`); the full-strength statement
     `callerOwnedWrites = []` is refuted in `Neg/C19.lean` -/
